@@ -332,6 +332,7 @@ def run(ctx):
                 twaps.append(f)
     if len(twaps) < 2:
         ctx.lost("R18.4", "the two TWAP functions (found %d)" % len(twaps))
+    unroll_note = {}
     for f in twaps:
         ctx.analysed["functions"].add(f.pretty)
         interval = [sym.param(f.key, i, f.param_name(i)) for i in range(f.arg_count) if f.locals[i + 1]["ty"] == "u64"][-1]
@@ -343,7 +344,17 @@ def run(ctx):
         bad = None
         n_single = n_avg = 0
         exits = set()
-        for p in ix.paths(f):
+        # quick: the loop body is seen zero and one time (one full iteration + the exit of the second);
+        # thorough: one more unrolling, so the weights of TWO consecutive full iterations and the exit of a third are
+        # checked - the step k -> k+1 of the telescoping argument with both iterations symbolic
+        depth = 3 if ctx.tier == "thorough" else None
+        try:
+            all_paths = ix.ev.paths(f, depth) if depth else ix.paths(f)
+        except Exception:
+            all_paths = ix.paths(f)
+            depth = None
+        unroll_note[f.key] = (depth or 2) - 1
+        for p in all_paths:
             if p.kind() != "ok":
                 continue
             # loop exits: only the two sanctioned conditions may end the loop
@@ -397,7 +408,7 @@ def run(ctx):
                 bad = bad or "weights sum to %s but the divisor is %s" % ({(sym.show(k, 3) if isinstance(k, int) else k): c for k, c in total.items()},
                                                                          {(sym.show(k, 3) if isinstance(k, int) else k): c for k, c in ld.items()})
         ctx.inst("R18.4", "twap-weights:%s" % short_fn(f), bad is None and n_avg >= 2 and n_single >= 1, f.where(),
-                 bad or "%d single-price results, %d averaged results on the unrolled prefix: weights telescope to the divisor" % (n_single, n_avg))
+                 bad or "%d single-price results, %d averaged results on the unrolled prefix (%d full iteration(s) + exit): weights telescope to the divisor" % (n_single, n_avg, unroll_note.get(f.key, 1)))
 
     # ---------------------------------------------------------------- R18.5
     # what the vAMM's three TWAP queries average: composed from the query arm's parameters and the per-snapshot price
